@@ -251,10 +251,10 @@ func c16(w *core.World, rep *core.Report) {
 		maxM, maxR, maxS = 4, 3, 4
 	}
 	w.Cx.MaxVisits = 3*maxR + 6
-	RunJobs(w, rep, pcoJobs(w, rep, maxM, maxR))
+	RunJobs(w, rep, MarkBounded(pcoJobs(w, rep, maxM, maxR)))
 	w.Cx.MaxVisits = 3*maxS + 2
 	w.Cx.UnwindDrop = true
-	RunJobs(w, rep, []Job{pcoSubsetJob(w)})
+	RunJobs(w, rep, MarkBounded([]Job{pcoSubsetJob(w)}))
 	w.Cx.UnwindDrop = false
 	w.Cx.Loops = base
 	rep.Bounded = append(rep.Bounded,
